@@ -511,6 +511,13 @@ def run(ctx):
     check_config(ctx, fb)
     check_open(ctx, fb)
     check_tree_replacement(ctx, fb)
+    # R16-6 (shared with C06 R06-11): an acknowledged write is handed to sled whole: put / put_batch insert every record they
+    # receive, unconditionally, and report Ok only when sled did
+    from . import c06
+    sub = type(ctx)(ctx.pid, ctx.tier)
+    c06.check_store_adapter(sub, fb)
+    for r in sub.results:
+        (ctx.ok if r.status == "ok" else ctx.fail)("R16-6", r.instance, r.reason, r.loc)
     # fixtures
     fx = ctx.fb("fixtures")
     from ..main import Ctx
